@@ -728,3 +728,122 @@ Proof.
   assert (Hc : b' = 1 \/ b' = 2) by lia.
   destruct Hc as [-> | ->]; lia.
 Qed.
+
+(* ------------------------------------------------------------------ the budgeted loop *)
+Lemma first_factor_down_gas_correct : forall gas k s r, 0 <= s ->
+  first_factor_down_gas k s gas = Some r -> first_factor_down k (Z.to_nat s) = r.
+Proof.
+  induction gas as [|g IH]; intros k s r Hs H; cbn [first_factor_down_gas] in H; [discriminate|].
+  destruct (s <=? 0) eqn:E0.
+  - apply Z.leb_le in E0. assert (s = 0) by lia. subst s. injection H as <-. reflexivity.
+  - apply Z.leb_gt in E0.
+    replace (Z.to_nat s) with (S (Z.to_nat (s - 1))) by lia.
+    cbn [first_factor_down]. replace (Z.of_nat (S (Z.to_nat (s - 1)))) with s by lia.
+    destruct (k mod s =? 0) eqn:Em.
+    + injection H as <-. reflexivity.
+    + apply IH; [lia | exact H].
+Qed.
+
+Theorem standard_dims_gas_correct : forall gas n,
+  standard_system_dimensions_gas gas n <> OutOfFuel ->
+  standard_system_dimensions_gas gas n = standard_system_dimensions n.
+Proof.
+  intros gas n. unfold standard_system_dimensions_gas, standard_system_dimensions.
+  destruct (n =? 0); [reflexivity|]. destruct (n =? 1); [reflexivity|].
+  destruct (negb (n mod 3 =? 0)); [reflexivity|]. cbv zeta.
+  destruct (n / 3 <? 0); [reflexivity|].
+  destruct (first_factor_down_gas (n / 3) (float_isqrt (n / 3)) gas) as [r|] eqn:E; [|intros H; contradiction H; reflexivity].
+  intros _. unfold float_isqrt in *.
+  rewrite (first_factor_down_gas_correct _ _ _ _ (Z.sqrt_nonneg _) E).
+  destruct r; reflexivity.
+Qed.
+
+(* ------------------------------------------------------------------ partially consumed generators *)
+Lemma NoDup_app_left : forall {A} (l1 l2 : list A), NoDup (l1 ++ l2) -> NoDup l1.
+Proof.
+  intros A l1. induction l1 as [|a l1 IH]; intros l2 H; [constructor|].
+  simpl in H. inversion H as [|? ? Hna Hnd]; subst. constructor.
+  - intros Hin. apply Hna. apply in_or_app. left. exact Hin.
+  - exact (IH _ Hnd).
+Qed.
+
+Theorem eth_coords_take_spec : forall n width height rx ry,
+  NoDup (eth_coords_take n width height rx ry) /\
+  (forall e, In e (eth_coords_take n width height rx ry) -> in_machine width height e /\ is_eth (rx, ry) e) /\
+  length (eth_coords_take n width height rx ry) = Nat.min n (length (spinn5_eth_coords width height rx ry)).
+Proof.
+  intros n width height rx ry. unfold eth_coords_take.
+  destruct (eth_coords_exact width height rx ry) as [Hnd Hin].
+  split; [|split].
+  - rewrite <- (firstn_skipn n) in Hnd. apply NoDup_app_left in Hnd. exact Hnd.
+  - intros e He. apply Hin. rewrite <- (firstn_skipn n). apply in_or_app. left. exact He.
+  - apply firstn_length.
+Qed.
+
+Lemma chip_eqb_eq : forall a b : chip, chip_eqb a b = true <-> a = b.
+Proof.
+  intros [a1 a2] [b1 b2]. unfold chip_eqb. cbn [fst snd]. rewrite andb_true_iff, !Z.eqb_eq.
+  split; [intros [-> ->]; reflexivity | intros H; injection H; auto].
+Qed.
+
+Theorem eth_coords_contains_spec : forall c width height rx ry,
+  eth_coords_contains c width height rx ry = true <-> (in_machine width height c /\ is_eth (rx, ry) c).
+Proof.
+  intros c width height rx ry. unfold eth_coords_contains, chip_mem.
+  rewrite <- (proj2 (eth_coords_exact width height rx ry) c). rewrite existsb_exists. split.
+  - intros (e & He & Heq). apply chip_eqb_eq in Heq. subst. exact He.
+  - intros H. exists c. split; [exact H | apply chip_eqb_eq; reflexivity].
+Qed.
+
+(* ------------------------------------------------------------------ ragged machines: always a chip of the machine *)
+Theorem local_eth_in_machine : forall x y w h rx ry, 0 < w -> 0 < h ->
+  exists e, spinn5_local_eth_coord x y w h rx ry = Ok e /\ in_machine w h e.
+Proof.
+  intros x y w h rx ry Hw Hh. eexists. split; [apply local_eth_model; lia|].
+  unfold in_machine, wrap. cbn [fst snd]. split; apply Z.mod_pos_bound; assumption.
+Qed.
+
+(* ------------------------------------------------------------------ numpy signed integer scalars as arguments *)
+(* Every value that takes part in fixed-width arithmetic inside the two kernels (Generated: extracted from
+   the source) fits the dtype as soon as the arguments do and are not negative; numpy's wrapping arithmetic
+   therefore computes what the integer model computes. *)
+Lemma table_offset_bounds : forall u v, 0 <= u < 12 -> 0 <= v < 12 ->
+  -7 <= fst (SPINN5_ETH_OFFSET_at v u) <= 0 /\ -7 <= snd (SPINN5_ETH_OFFSET_at v u) <= 0.
+Proof.
+  intros u v Hu Hv. pose proof (cell_ok u v Hu Hv) as Hc. unfold cell_okb in Hc.
+  destruct (SPINN5_ETH_OFFSET_at v u) as [ox oy]. apply andb_true_iff in Hc. destruct Hc as [Hs _].
+  apply board_shapeb_spec in Hs. unfold board_shape in Hs. cbn [fst snd]. lia.
+Qed.
+
+Lemma pow_ge_128 : forall N, 8 <= N -> 128 <= 2 ^ (N - 1).
+Proof. intros N HN. change 128 with (2 ^ 7). apply Z.pow_le_mono_r; lia. Qed.
+
+Theorem chip_coord_steps_fit : forall N x y rx ry, 8 <= N ->
+  0 <= x < 2 ^ (N - 1) -> 0 <= y < 2 ^ (N - 1) -> 0 <= rx < 2 ^ (N - 1) -> 0 <= ry < 2 ^ (N - 1) ->
+  Forall (fits N) (spinn5_chip_coord_steps x y rx ry).
+Proof.
+  intros N x y rx ry HN Hx Hy Hrx Hry. pose proof (pow_ge_128 N HN) as HP.
+  unfold spinn5_chip_coord_steps.
+  destruct (SPINN5_ETH_OFFSET_at ((y - ry) mod 12) ((x - rx) mod 12)) as [ox oy].
+  set (P := 2 ^ (N - 1)) in *.
+  assert (Hu : 0 <= (x - rx) mod 12 < 12) by (apply Z.mod_pos_bound; lia).
+  assert (Hv : 0 <= (y - ry) mod 12 < 12) by (apply Z.mod_pos_bound; lia).
+  repeat constructor; unfold fits; fold P; lia.
+Qed.
+
+Theorem local_eth_steps_fit : forall N x y w h rx ry, 8 <= N ->
+  0 <= x < 2 ^ (N - 1) -> 0 <= y < 2 ^ (N - 1) -> 0 < w < 2 ^ (N - 1) -> 0 < h < 2 ^ (N - 1) ->
+  0 <= rx < 2 ^ (N - 1) -> 0 <= ry < 2 ^ (N - 1) ->
+  Forall (fits N) (spinn5_local_eth_coord_steps x y w h rx ry).
+Proof.
+  intros N x y w h rx ry HN Hx Hy Hw Hh Hrx Hry. pose proof (pow_ge_128 N HN) as HP.
+  unfold spinn5_local_eth_coord_steps.
+  assert (Hu : 0 <= (x - rx) mod 12 < 12) by (apply Z.mod_pos_bound; lia).
+  assert (Hv : 0 <= (y - ry) mod 12 < 12) by (apply Z.mod_pos_bound; lia).
+  pose proof (table_offset_bounds _ _ Hu Hv) as Hb.
+  destruct (SPINN5_ETH_OFFSET_at ((y - ry) mod 12) ((x - rx) mod 12)) as [ox oy]. cbn [fst snd] in Hb.
+  set (P := 2 ^ (N - 1)) in *.
+  assert (Hmx : 0 <= (x + ox) mod w < w) by (apply Z.mod_pos_bound; lia).
+  assert (Hmy : 0 <= (y + oy) mod h < h) by (apply Z.mod_pos_bound; lia).
+  repeat constructor; unfold fits; fold P; lia.
+Qed.
